@@ -264,6 +264,12 @@ def run(ctx):
                     r1.violation(key, "subtraction may underflow: %s" % why_, site_of(b, i))
             else:
                 r1.violation(key, "assert %s in the reph path is not covered by a discharge rule" % kind, site_of(b, i))
+    # ---------------- R4 character classes the scan relies on
+    from . import classes
+    r4 = chk.rule("C13.R4", "the consonant / vowel classes the scan relies on are the Unicode ones",
+                  "the final conjunct is recognised for every consonant (placement needs the classes to be right)")
+    classes.check_classes(r4, prog, ["is_pure_consonant", "is_vowel"], common.fn_line)
+    r4.floor(3, "two classes + disjointness")
     r1.table("obligations", n_ob)
     r1.floor(6, "4 counter increments, len − step, suffix-bytes (sum, subtraction, truncate)")
 
